@@ -48,6 +48,7 @@ type Exec struct {
 	topFrame   *frame
 	curCallFrame *frame
 	curCallArg0  ssa.Value
+	curCall      *ssa.CallCommon
 	curStoreVal  *Val
 	defaultSpecs map[string]*FuncSpec
 	entryFacts bool
